@@ -62,7 +62,7 @@ pub fn atom(rng: &mut Rng, cfg: &g::AspCfg, depth: usize) -> asp::Atom {
 }
 
 pub fn program(rng: &mut Rng, cfg: &g::AspCfg) -> asp::Program {
-    let n = rng.below(cfg.max_rules + 1);
+    let n = g::count(rng, cfg.max_rules);
     let depth = 1 + rng.below(4);
     let rules = (0..n)
         .map(|_| {
@@ -101,7 +101,7 @@ fn pk(rng: &mut Rng, xs: &[&'static str]) -> &'static str {
 }
 
 fn sp(rng: &mut Rng) -> &'static str {
-    match rng.weighted(&[40, 40, 5, 5, 3, 3, 2, 2]) {
+    match rng.weighted(&[400, 400, 50, 50, 30, 30, 20, 20, 5]) {
         0 => "",
         1 => " ",
         2 => "  ",
@@ -109,7 +109,10 @@ fn sp(rng: &mut Rng) -> &'static str {
         4 => " %c\n",
         5 => "\r\n",
         6 => "%\n",
-        _ => "\r",
+        7 => "\r",
+        // not layout for the grammar (`WHITESPACE = " " | NEWLINE`): form feed, vertical tab, tab, NBSP, BOM;
+        // non-ASCII text bare and inside a comment; an apostrophe (clingo's X')
+        _ => pk(rng, &["\x0c", "\x0b", "\t", "\u{a0}", "\u{feff}", " %\x0c\u{e9}\u{3bb}\u{a0}\n", "\u{e9}", "'", " % it's\n", "\x00"]),
     }
 }
 
@@ -241,9 +244,9 @@ pub fn text_rule(rng: &mut Rng, out: &mut String) {
 pub fn text_program(rng: &mut Rng) -> String {
     let mut out = String::new();
     if rng.chance(10) {
-        out.push_str(pk(rng, &[" ", "\n", "%c\n", "% only a comment"]));
+        out.push_str(pk(rng, &[" ", "\n", "%c\n", "% only a comment", " ", "\n", "%c\n", "\u{feff}", "\u{feff}%c\n", "% \u{e9}\n"]));
     }
-    for _ in 0..rng.below(4) {
+    for _ in 0..g::count(rng, 3) {
         text_rule(rng, &mut out);
         out.push_str(pk(rng, &["\n", " ", "", "\n\n", " % comment\n"]));
     }
@@ -293,7 +296,7 @@ pub fn mutate(rng: &mut Rng, text: &str) -> String {
                 }
             }
             3 => {
-                let ins = pk(rng, &["\t", "'", "#", ".", "-", "(", ")", "not ", "not", "0", "..", ":-", ",", ";", "{", "}", "#false", "=", "!", "_", "X", "%", " ", "\u{e9}"]).to_string();
+                let ins = pk(rng, &["\t", "'", "#", ".", "-", "(", ")", "not ", "not", "0", "..", ":-", ",", ";", "{", "}", "#false", "=", "!", "_", "X", "%", " ", "\u{e9}", "\x0c", "\x0b", "\u{a0}", "\u{feff}", "'", "\u{c9}"]).to_string();
                 v.insert(i, ins);
             }
             _ => {
